@@ -268,6 +268,7 @@ pub struct FrontendCtx<'a, R: FileManager> {
     values_being_extracted: Vec<ModuleItemAddress>,
     generic_instantiations_in_progress: usize,
     member_accesses_being_evaluated: Vec<(ModuleItemAddress, String)>,
+    default_import_types_in_progress: Vec<RuntypeUUID>,
 }
 
 const MAX_GENERIC_INSTANTIATION_DEPTH: usize = 25;
@@ -1124,6 +1125,7 @@ impl<'a, R: FileManager> FrontendCtx<'a, R> {
             values_being_extracted: vec![],
             generic_instantiations_in_progress: 0,
             member_accesses_being_evaluated: vec![],
+            default_import_types_in_progress: vec![],
         }
     }
 
@@ -2178,13 +2180,25 @@ impl<'a, R: FileManager> FrontendCtx<'a, R> {
             // it won't be recursive if it's builtin, and we don't need to write it's definition
             return self.extract_addressed_type(&fat, type_args, anchor);
         }
+        self.extract_named_type(fat, type_args, ts_type_args.is_some(), anchor)
+    }
+
+    /// The definition of a named (non-builtin) type, registered once: a reference to a type whose
+    /// definition is still being read is answered with a `Ref`, which is what ends recursion.
+    fn extract_named_type(
+        &mut self,
+        fat: RuntypeName,
+        type_args: Vec<Runtype>,
+        generic: bool,
+        anchor: &Anchor,
+    ) -> Res<Runtype> {
         let rt_uuid = RuntypeUUID {
             ty: fat.clone(),
             type_arguments: type_args.clone(),
         };
         let found = self.partial_validators.get(&rt_uuid);
         if let Some(_found_in_map) = found {
-            if ts_type_args.is_some() {
+            if generic {
                 self.recursive_generic_uuids.insert(rt_uuid.clone());
             }
             return Ok(Runtype::ref_(rt_uuid));
@@ -2192,7 +2206,6 @@ impl<'a, R: FileManager> FrontendCtx<'a, R> {
         self.partial_validators.insert(rt_uuid.clone(), None);
 
         // `type Nest<T> = { v: T; n?: Nest<T[]> }` asks for a new instantiation at every level
-        let generic = ts_type_args.is_some();
         if generic {
             self.generic_instantiations_in_progress += 1;
         }
@@ -2918,7 +2931,22 @@ impl<'a, R: FileManager> FrontendCtx<'a, R> {
                     };
                     let resolved_addr = self.get_addressed_type(&new_addr, &anchor)?;
                     let rt_name = RuntypeName::Address(resolved_addr.type_address());
-                    return self.extract_addressed_type(&rt_name, type_args, &anchor);
+                    // The default export is written out in place. `export default T` where T
+                    // mentions `import("./this-file")` would be read again and again: the second
+                    // time round it is registered like every other named type, so that a
+                    // reference ends the recursion.
+                    let key = RuntypeUUID {
+                        ty: rt_name.clone(),
+                        type_arguments: type_args.clone(),
+                    };
+                    if self.default_import_types_in_progress.contains(&key) {
+                        let generic = import_type.type_args.is_some();
+                        return self.extract_named_type(rt_name, type_args, generic, &anchor);
+                    }
+                    self.default_import_types_in_progress.push(key);
+                    let res = self.extract_addressed_type(&rt_name, type_args, &anchor);
+                    self.default_import_types_in_progress.pop();
+                    return res;
                 }
             }
         };
